@@ -10,6 +10,9 @@ WIN_NOTE = ("Trusted: TLC + Json/IOUtils community modules; the Go driver (scena
 SEQ_NOTE = ("Trusted: TLC + Json/IOUtils modules; the Go driver (typed-value decoder, lock-step feeder, value projection to fixed point x10^4: decides nothing); "
             "the scenario/SQL renderer in checks/*.py (the monitor trusts that the meta line describes the SQL); verif hooks. Single producer, rows fed in lock-step, results observed at a synchronous sink.")
 CLAIMS = {
+ "C04": dict(tech="TLA+ model of GROUP BY inside a batch with the aggregator's key encoder over symbol sequences (GroupBy.tla: separator-join violates the partition contract, length-prefix satisfies it) model-checked by TLC; batches over separator-like / NULL-marker / NULL / missing / >2^53 values and scalar-function keys executed on the real engine and validated by TLC against TraceBatch (one result row per distinct key tuple, each row aggregated in its own tuple's group)",
+             text="TLC checks the partition contract on the model for every pair of key tuples over an alphabet containing the encoder's own separator and NULL-marker characters; on the real engine every enumerated/seeded batch is validated by TLC: exactly one result row per distinct tuple (NULL and missing collapsing), reported under the selected names, with collect(id)/count/sum equal to the rows of that tuple only. Bounded and sampled for 2-3 columns.",
+             ref="DESIGN.md §4 C04", note=SEQ_NOTE + " One scalar type per grouping column; function keys via upper()/lower() on present strings."),
  "C09": dict(tech="TLA+ model of CountingWindow(N) with the key encoder (Counting.tla + lib/KeyEnc.tla) model-checked by TLC (contract per key TUPLE, encoder injectivity); every key sequence of the model at small bounds replayed in lock-step on the real engine; traces validated by TLC against the batch monitor TraceBatch",
              text="TLC enumerates all key sequences of the model (plain keys, separator-like keys, NULL/missing/empty, two-column keys) up to the stated length; each is executed on the real engine and the recorded trace is validated by TLC: i-th delivery of a key = that key's rows (i-1)N+1..iN, nothing extra, nothing missing at quiescence. Bounded; goroutine schedules beyond lock-step are not explored (one goroutine owns the state, Add blocks on a channel).",
              ref="DESIGN.md §4 C09", note=SEQ_NOTE + " STATETTL unset."),
